@@ -25,6 +25,7 @@ func init() {
 	vh.Register("c03", "record", record)
 	vh.Register("c03", "one", one)
 	vh.Register("c03", "stress", stress)
+	vh.Register("c03", "coldstart", ColdStart("c03"))
 }
 
 // Vector is one line of names_vectors.ndjson.
@@ -391,6 +392,9 @@ func replayNames(args []string) error {
 	var entries []Entry
 	for i := range resv {
 		entries = append(entries, resv[i].E...)
+	}
+	if err := AppendCold(ColdSampleNames(entries, 400)); err != nil {
+		return err
 	}
 	hcalls := History(entries, vh.Rand(350), func(fn, key, what string, detail any) {
 		res.Mismatch(fmt.Sprintf("%s(%s)", fn, shortQ(key)), what+" [G history]", detail)
